@@ -32,7 +32,8 @@ def run(tier="quick", seed=0, use_cache=True):
         "guard in _BTree_set is implied by the embedding guard of "
         "BTree_getstate (atoms len==1, oid==NULL). Python side: in-place "
         "list mutation on self must be accompanied by _p_changed or a "
-        "persistent attribute assignment on the same path.")
+        "persistent attribute assignment on the same path."
+        ' SAME-VALUE: the equal-value shortcut that skips store and registration is switched off for object values (C: no (in)equality test of an object value slot in a storing function; Python: the comparison is guarded by a class attribute that is False for object values).')
     res.assumptions = [
         "state loaders (__setstate__) and lifecycle slots legitimately rewrite nodes without registering",
         "first-leaf creation in _BTree_set registers through the embedded-leaf clause (accepted idiom, DESIGN 4.2)",
